@@ -35,6 +35,16 @@ CHECKS = {
    note="The harness AIR reconciles its description with any trace shape the proof claims, so panics are attributable to library code. One known finding (AirContext assertion reached through Air::new).",
    technique="exhaustive fault/mutation enumeration of untrusted inputs with panic capture",
    engine="stark", design_ref="§4 C06"),
+ "C04": dict(category="model_checking",
+   text="A protocol model of the Fiat-Shamir transcript (stateright Model per configuration: prover messages in protocol order, challenge classes with their windows; invariant: a challenge class is drawn only after every protocol-earlier prover message and before any later one; explored exhaustively) bound to the code by trace conformance: the real prover and the real verify() run with a recording coin substituted for the RandomCoin type parameter, and both recorded call sequences must be behaviours of the model with every absorbed value equal, by value, to what the proof carries (seed = context || public inputs, commitments, OOD hashes recomputed from the proof bytes, FRI commitments, nonce). Prover and verifier logs must agree on all used challenges. Model-free second oracle: flipping one bit of each prover message changes every later challenge and no earlier one.",
+   note="Order of draws inside one phase is left free (the property does not constrain it); the verifier's unused challenge after the remainder commitment is optional in the model; trusts the coin (C19).",
+   technique="explicit-state model checking of a protocol model (stateright) + trace conformance of real prover/verifier coin logs + dependency matrix",
+   engine="stark", design_ref="§4 C04"),
+ "C17": dict(category="exploration",
+   text="For computation descriptions of the C01 family (n <= 64/128): the real pipeline DefaultTraceLde -> DefaultConstraintEvaluator::evaluate -> CompositionPoly::new is compared with a reference evaluation of the definition (transition constraints over the trace polynomials divided by the product over non-exempt steps, boundary constraints with value interpolants divided by the product over asserted steps, Lagrange kernel terms, the library's coefficient order) at D+1 distinct points, D >= degree of both sides, i.e. as polynomial identity, plus extension-field points.",
+   note="Coefficients and auxiliary randomness are seeded values (the identity is universal in them); the verifier-side definition is tied in through C01's OOD consistency check.",
+   technique="bounded-exhaustive enumeration of descriptions with exact polynomial identity testing at degree+1 points against a reference definition",
+   engine="stark", design_ref="§4 C17"),
  "C05": dict(category="exploration",
    text="Adversary enumeration on the stand-alone FRI verifier: configurations x functions (every monomial above the bound, low-degree polynomial corrupted at every point / pairs / half the domain, random) x prover strategies (honest, full remainder, remainder chosen after seeing the queries, tampered opened or committed value per layer, wrong challenge per layer, omitted/duplicated/swapped layers) x ALL position lists of size 1 and 2: the real verifier must return Ok exactly when a reference verifier written from the protocol description accepts. The harness prover model is bound to the code by byte-equality of its honest proof with the real FriProver's.",
    note="Decides the verifier's deterministic accept/reject procedure, not a soundness probability; trusts coin/hashers/Merkle (C19, C11, C10). The model follows the implementation's convention of keeping the domain offset constant across layers (an equivalent rescaling, degrees unchanged).",
@@ -93,7 +103,7 @@ CHECKS = {
 }
 
 ALL = ["C%02d" % i for i in range(1, 21)]
-PENDING_REASON = "check not built yet in this revision of /verif (construction order in DESIGN.md §7); will be claimed once its harness binary exists"
+PENDING_REASON = "check not built yet in this revision of /verif (controlled-scheduler rayon stand-in, DESIGN.md §4 C14); will be claimed once its harness exists"
 
 def main():
     checks = []
@@ -130,7 +140,7 @@ def main():
             {"name": "fields", "path": "harness/bins/fields", "serves_properties": ["C07", "C08"], "kind_free_text": "alphabet products + representation reachability"},
             {"name": "polyfft", "path": "harness/bins/polyfft", "serves_properties": ["C09", "C20"], "kind_free_text": "monomial-basis FFT checks, segmented LDE, polynomial utilities"},
             {"name": "airdom", "path": "harness/bins/airdom", "serves_properties": ["C16", "C18"], "kind_free_text": "divisor/assertion domains; security-estimate parameter space"},
-            {"name": "stark", "path": "harness/bins/stark", "serves_properties": ["C01", "C02", "C03", "C06"], "kind_free_text": "SpecAir family, deviation-bounded configuration enumeration, cell corruption, proof mutation closure on the real prover/verifier"},
+            {"name": "stark", "path": "harness/bins/stark", "serves_properties": ["C01", "C02", "C03", "C04", "C06", "C17"], "kind_free_text": "SpecAir family, deviation-bounded configuration enumeration, cell corruption, proof mutation closure on the real prover/verifier"},
             {"name": "frichk", "path": "harness/bins/frichk", "serves_properties": ["C05", "C15"], "kind_free_text": "FRI prover model + reference verifier; folding identity"},
             {"name": "merkle", "path": "harness/bins/merkle", "serves_properties": ["C10"], "kind_free_text": "all subsets x all mutations of Merkle openings"},
             {"name": "hashes", "path": "harness/bins/hashes", "serves_properties": ["C11", "C19"], "kind_free_text": "reference sponge/coin; BFS over coin histories"},
